@@ -82,6 +82,13 @@ partial def parseTupleElems : List Tok → List J → Option (List J × List Tok
       | some (v, r') => parseTupleElems r' (v :: acc)
       | none => none
 
+def parseAllJ : Nat → List Tok → List J → Option (List J)
+  | 0, _, _ => none
+  | _, [], acc => some acc.reverse
+  | f+1, ts, acc => match parseJ ts with
+    | some (v, r) => parseAllJ f r (v :: acc)
+    | none => none
+
 def parseVal : List Tok → Option (PyVal × List Tok)
   | [] => none
   | t :: r =>
@@ -294,6 +301,20 @@ def handle (memo : Memo) (line : String) : Memo × String :=
           let memo' := match u with | .j uj => warm memo uj true | _ => memo
           (memo', showRes (verifyRoot (memoCrypto memo') t u))
         | _ => (memo, "X bad-args")
+      | _ => (memo, "X bad-args")
+    | "chain" =>
+      -- chain INIT OFFER* : the client loop of C04; answers the verdict per offer and the index of the root finally held
+      match parseAllJ (args.length + 1) args [] with
+      | some (init :: offers) =>
+        let (memo', _, idx, verdicts) := offers.foldl (fun (st : Memo × J × Nat × List String) (o : J) =>
+            let (m, cur, idx, vs) := st
+            let m' := warm m o true
+            let r := verifyRootJ (memoCrypto m') cur o
+            let i := vs.length + 1
+            match r with
+            | .ok _ => (m', o, i, vs ++ ["OK"])
+            | .error e => (m', cur, idx, vs ++ ["E " ++ e.name])) (memo, init, 0, [])
+        (memo', "L " ++ ";".intercalate verdicts ++ "|" ++ toString idx)
       | _ => (memo, "X bad-args")
     | "wrap" =>
       match parseVal args with
